@@ -7,6 +7,7 @@ CONSTANTS
   NFiles = 0
   EditKinds = {}
   Linking = FALSE
+  StaleOps = FALSE
 INIT TInit
 NEXT TNext
 CONSTRAINT Progress
